@@ -48,6 +48,10 @@ def check(runner, arrays, diff_idx, name, kinks=False, subsets=True, max_m=None)
     info = {"accepted": True, "m": m, "nonzero": False}
     if m == 0 or (max_m and m > max_m):
         return [], info
+    if y0.dtype.kind == "f" and not np.all(np.isfinite(y0)):
+        # e.g. a max-pooling window that lies entirely in the -inf padding: no derivative to speak of
+        info["nonfinite_forward"] = True
+        return [], info
     f = lambda xs: _fwd(runner, xs)
     try:
         rows = lib_jacobians(runner, arrays, diff_idx, m, y0.shape, y0.dtype if y0.dtype.kind == "f" else np.float64)
